@@ -447,6 +447,10 @@ def run_case(ctx, case):
                         for vn in outs:
                             if not all(refmodel.is_null_leaf(l) for l in refmodel.leaves(row[vn])):
                                 bad = "row %s carries %s=%r although its batch is not finished" % (p, vn, row[vn])
+                            elif not bool(df[vn].isnull()[rows.index(row)]):
+                                # in a table 'missing' is what the table itself calls missing (isnull / dropna / count)
+                                bad = "row %s of an unfinished batch holds %s=%r (%s), which the table does not count as missing" % (
+                                    p, vn, row[vn], type(row[vn]).__name__)
                     if bad:
                         break
                 if not bad and len(seen) != len(req):
